@@ -533,6 +533,19 @@ fn systematic_families(rng: &mut Rng, budget: usize) -> Vec<Call> {
             let j = rng.below(i + 1);
             words.swap(i, j);
         }
+        // a few decimals and ordinals in sentence context per language (formatting paths)
+        for _ in 0..12 {
+            let text = format!(
+                "{} {} {} {} {} {}",
+                rng.word(pool.content),
+                rng.word(pool.tens),
+                rng.word(pool.decsep),
+                rng.word(pool.zero),
+                rng.word(pool.units),
+                rng.word(pool.content)
+            );
+            out.push(Call { lang, concrete: rng.chance(1, 2), op: Op::Rewrite { text, thr: "0".into() }, crash_at: 0 });
+        }
         let start = out.len();
         'w: for w in &words {
             for v in all_inflections(w) {
